@@ -426,6 +426,44 @@ def context_grammar(rng, derive=True):
     return items
 
 
+def dispatch_grammar(rng, derive=True):
+    """Top -> [$X] P(a_j) $T_j for j = 0..m-1 with two to four *empty* nonterminals P0..Pk: one state reduces P_i -> ε
+    on exactly the terminals assigned to i, so its ACTION row interleaves several reduce rules over the columns
+    (r1 r2 r1 r3 r2 …) — what any per-row cache, run-length encoding or 'same as the previous cell' shortcut in the
+    table emission trips over.  Terminals are declared in random order."""
+    k = rng.randint(2, 4)
+    m = rng.randint(3, 8)
+    ps = [f"P{i}" for i in range(k)]
+    ts = [f"T{j}" for j in range(m)]
+    assign = [rng.randrange(k) for _ in range(m)]
+    for i in range(k):                      # every prefix is used at least once if there is room
+        if i < m:
+            assign[i] = i
+    rng.shuffle(assign)
+    attrs = ["#[derive(Debug)]"] if derive else []
+    lead = rng.random() < 0.4
+
+    def fs(syms):
+        return {"kind": "tuple", "fields": [{"used": rng.random() < 0.8, "sym": x} for x in syms]}
+
+    variants = []
+    for j, t in enumerate(ts):
+        syms = ([sym_t("X")] if lead else []) + [sym_n(ps[assign[j]]), sym_t(t)]
+        variants.append({"name": f"V{j}", "fieldset": fs(syms)})
+    decls = [{"kind": "enum", "attrs": list(attrs), "name": "Top", "variants": variants}]
+    for p_ in ps:
+        if rng.random() < 0.6:
+            decls.append({"kind": "struct", "attrs": list(attrs), "name": p_, "fieldset": {"kind": "empty"}})
+        else:
+            decls.append({"kind": "enum", "attrs": list(attrs), "name": p_, "variants": [{"name": "Nil", "fieldset": {"kind": "empty"}}]})
+    rng.shuffle(decls)
+    order = list(ts) + (["X"] if lead else [])
+    rng.shuffle(order)
+    items = [{"kind": "start", "name": "Top"}] + decls
+    items.append({"kind": "terminal", "attrs": list(attrs), "name": "Tok", "variants": [{"name": t, "type": "usize"} for t in order]})
+    return items
+
+
 def wave_grammar(rng, derive=True):
     """A dependency chain A1 -> A2 -> .. -> Ak whose far end is `Ak { Nil | More(Aj $Y) }`: nullability
     has to travel the whole chain before Y can enter FIRST(Ak), and Y then has to travel the chain again.
